@@ -407,24 +407,24 @@ func cmdCheck(args []string) {
 			"traces_validated_against_impl": validated,
 			"samples":                       samples,
 			"exhaustive":                    len(inconclusive) == 0,
-			"explanation": "bounded symbolic execution of the go/ssa form of /repo (rebuilt from the working tree on this run): states = completed symbolic paths (each a class of inputs described by its path condition), transitions = symbolic branch decisions; every assertion and every feasibility question not settled by the syntactic byte-domain filter was a z3 query; exhaustive=true means every path inside the stated bounds was explored to its end, no solver answer was unknown and all vacuity guards were reached",
-			"bounds":                  bounds,
-			"outside_the_claim":       spec.outside,
-			"functions_encoded":       encoded,
-			"runs":                    runsOut,
-			"ssa_instructions":        tot.Steps,
-			"assertions_reached":      tot.Asserts,
-			"solver_queries":          map[string]any{"total": tot.Solver.Queries, "sat": tot.Solver.Sat, "unsat": tot.Solver.Unsat, "unknown": tot.Solver.Unknown, "error_lines": tot.Solver.Errors, "decided_by_domain_filter": tot.FilterHits},
-			"solver_time_s":           round2(tot.Solver.Time.Seconds()),
-			"solver":                  "z3 4.8.12 (persistent process per worker, push/pop)",
-			"cross_solver_rechecks":   cross,
-			"cover_points":            cover,
-			"required_cover_points":   spec.covers,
-			"violations_replayed":     len(vios),
-			"inconclusive":            inconclusive,
-			"implicit_restrictions":   assumed,
-			"ssa_load_build_s":        round2(l.loadDur.Seconds()),
-			"workers":                 *workers,
+			"explanation":                   "bounded symbolic execution of the go/ssa form of /repo (rebuilt from the working tree on this run): states = completed symbolic paths (each a class of inputs described by its path condition), transitions = symbolic branch decisions; every assertion and every feasibility question not settled by the syntactic byte-domain filter was a z3 query; exhaustive=true means every path inside the stated bounds was explored to its end, no solver answer was unknown and all vacuity guards were reached",
+			"bounds":                        bounds,
+			"outside_the_claim":             spec.outside,
+			"functions_encoded":             encoded,
+			"runs":                          runsOut,
+			"ssa_instructions":              tot.Steps,
+			"assertions_reached":            tot.Asserts,
+			"solver_queries":                map[string]any{"total": tot.Solver.Queries, "sat": tot.Solver.Sat, "unsat": tot.Solver.Unsat, "unknown": tot.Solver.Unknown, "error_lines": tot.Solver.Errors, "decided_by_domain_filter": tot.FilterHits},
+			"solver_time_s":                 round2(tot.Solver.Time.Seconds()),
+			"solver":                        "z3 4.8.12 (persistent process per worker, push/pop)",
+			"cross_solver_rechecks":         cross,
+			"cover_points":                  cover,
+			"required_cover_points":         spec.covers,
+			"violations_replayed":           len(vios),
+			"inconclusive":                  inconclusive,
+			"implicit_restrictions":         assumed,
+			"ssa_load_build_s":              round2(l.loadDur.Seconds()),
+			"workers":                       *workers,
 		},
 	}
 	os.MkdirAll(evDir, 0o755)
